@@ -13,6 +13,7 @@ from .mesh import SphericalGrid1D, PolarGrid2D, CylindricalGrid3D, SphericalGrid
 from .boundary import BoundaryConditionsBase, BoundaryConditions
 from .boundary import cellValuesWithBoundaries, boundaryConditionsTerm
 from .utilities import TrackedArray
+from . import _verif_trace as _vt
 
 
 
@@ -36,6 +37,7 @@ class CellVariable:
     def __init__(self, mesh_struct: MeshStructure, cell_value: float):
         ...
 
+    @_vt.traced("new_var", _vt.d_new_var)
     def __init__(self, mesh_struct: MeshStructure, cell_value, *arg,
                  BCsTerm_precalc = True):
         """
@@ -314,6 +316,7 @@ class CellVariable:
                             deepcopy(self.BCs))
 
 
+    @_vt.traced("apply_bcs", _vt.d_apply)
     def apply_BCs(self):
         """Update ghost cells according to the boundary conditions and the 
         internal (inner) cell values.
@@ -346,11 +349,13 @@ class CellVariable:
         self.value.modified = False
         
         
+    @_vt.traced("update_value", _vt.d_update)
     def update_value(self, new_cell):
         np.copyto(self._value, new_cell._value)
         self._value.modified = True
   
     
+    @_vt.traced("copy", _vt.d_copy)
     def copy(self):
         """
         Create a copy of the CellVariable
